@@ -63,6 +63,9 @@ TraceNext == \/ TReset \/ TCreate \/ TStat \/ TGetLat \/ TGetPer \/ TRead \/ TSe
              \/ TSetMt \/ TTick \/ TList \/ TTTL \/ TPolicy \/ TCleanup \/ TAggro \/ TForce \/ TSetTask \/ TSetOwn
 TraceSpec == TraceInit /\ [][TraceNext]_tvars
 
+\* a reset record is the boundary between two recorded histories (fresh store), not a step of the system
+TPersistProtected == [][(l <= Len(Trace) /\ Trace[l].ev = "reset") \/ PersistProtectedStep]_tvars
+
 HW == TLCSet(1, IF TLCGet(1) < l THEN l ELSE TLCGet(1))
 TraceAccepted == IF TLCGet(1) = Len(Trace) + 1 THEN TRUE
                  ELSE PrintT(<<"REJECTED_AT_LINE", TLCGet(1)>>) /\ FALSE
